@@ -30,6 +30,10 @@ def run(ctx):
     ctx.rule('C09.DEFER', lambda: rule_defer(ctx), 3)
     ctx.rule('C09.NONE', lambda: rule_none(ctx), 5)
     ctx.rule('C09.COLLISION', lambda: c01.rule_collision(ctx, 'C09.COLLISION'), 2)
+    # the two-phase prevout lookup is positional: a prevout that vanished in a daemon race must keep its slot (None, None)
+    sch = ctx.rule('C09.SCHEMAS', lambda: c01.Schemas(ctx))
+    if sch is not None:
+        ctx.rule('C09.LOOKUP', lambda: c01.rule_layout_lookup(ctx, sch, 'C09.LOOKUP'), 8)
     ctx.rule('C09.PAIRS', lambda: c08.rule_add(ctx) + c08.rule_remove(ctx), 8)
     from .unbound import rule_unbound
     ctx.rule('C09.UNBOUND', lambda: rule_unbound(ctx, 'C09.UNBOUND', ('mp',)), 20)
